@@ -446,6 +446,18 @@ func (o *Obligation) Decide(solver *Solver, inputs []*Term) {
 		o.Assume = full
 	}
 	o.decide(solver, inputs)
+	// a solver that ran into the time limit says nothing about the code: before the obligation is
+	// reported, it gets one more attempt with five times the budget (a loaded or slower machine
+	// must not turn a proof that takes a few seconds into an alarm)
+	if !o.Cover && o.Res != nil && o.Res.Status == "timeout" && solver.timeoutS < 30 {
+		big := solver.withTimeout(solver.timeoutS * 5)
+		first := o.Res
+		o.decide(big, inputs)
+		if o.Res != nil && o.Res.Status != "unsat" {
+			o.Res.Output += "\n; note: undecided again with a budget of " + itoa(big.timeoutS) + "s"
+			o.Res.Seconds += first.Seconds
+		}
+	}
 }
 
 func (o *Obligation) decide(solver *Solver, inputs []*Term) {
